@@ -139,10 +139,12 @@ func (P *Program) expandAuto(c *Contract, fn *ssa.Function) error {
 		*list = append(*list, cl)
 		return nil
 	}
-	if len(c.Keeps) == 0 {
-		// fields of the per-record context that only set/setentry write
-		c.Keeps = append(c.Keeps, "PrintCtx.off", "PrintCtx.lvl", "PrintCtx.msg", "PrintCtx.kvps", "PrintCtx.now", "PrintCtx.stackFrame",
-			"PrintCtx.jsonMode", "PrintCtx.noColor", "PrintCtx.layout", "PrintCtx.utcTime", "PrintCtx.noQuoted", "PrintCtx.dedupeAttrs")
+	// fields of the per-record context that only set/setentry write (added to whatever the contract lists)
+	for _, d := range []string{"PrintCtx.off", "PrintCtx.lvl", "PrintCtx.msg", "PrintCtx.kvps", "PrintCtx.now", "PrintCtx.stackFrame",
+		"PrintCtx.jsonMode", "PrintCtx.noColor", "PrintCtx.layout", "PrintCtx.utcTime", "PrintCtx.noQuoted", "PrintCtx.dedupeAttrs"} {
+		if !hasStr(c.Keeps, d) {
+			c.Keeps = append(c.Keeps, d)
+		}
 	}
 	for _, p := range fn.Params {
 		switch pt := p.Type().Underlying().(type) {
